@@ -132,10 +132,10 @@ func cmdRun(args []string) int {
 	t0 := time.Now()
 
 	type hres struct {
-		spec harnessSpec
-		ex   *sx.Explorer
-		prog *sx.Program
-		err  error
+		spec   harnessSpec
+		ex     *sx.Explorer
+		prog   *sx.Program
+		err    error
 		params map[string]int
 	}
 	var results []hres
@@ -196,6 +196,14 @@ func cmdRun(args []string) int {
 		if *verbose {
 			fmt.Fprintf(os.Stderr, "[%s] paths=%d infeasible=%d queries=%d viol=%d inconcl=%d wall=%.1fs load=%.1fs solver=%.1fs\n",
 				h.Name, ex.Paths, ex.Infeasible, ex.Queries, len(ex.Violations), len(ex.Inconclusive), ex.Wall, prog.LoadS, ex.Solver.Time.Seconds())
+		}
+		if *verbose {
+			var ks []string
+			for k, v := range ex.Notes {
+				ks = append(ks, fmt.Sprintf("%s=%d", k, v))
+			}
+			sort.Strings(ks)
+			fmt.Fprintln(os.Stderr, "  notes:", strings.Join(ks, " "))
 		}
 		for _, r := range ex.Inconclusive {
 			inconcl = append(inconcl, h.Name+": "+r)
